@@ -89,7 +89,7 @@ class Runner:
         force = getattr(fast, "_verif_rng_force", None) if self.pin_ids else None
         for i, act in enumerate(history):
             self.step_no = i
-            if force is not None and act[0] not in ("set_keys", "discover", "reply", "timeout"):
+            if force is not None and act[0] not in ("set_keys", "set_keys_bad", "discover", "reply", "timeout"):
                 force([0x12345678, 0x23456789])  # request-id, msgID: fixed width
             try:
                 self.step(act)
@@ -118,6 +118,26 @@ class Runner:
             if out.kind != "ok":
                 self.bad("wire", "set_keys failed: %r" % (out.brief(),))
             s.installation += 1
+            return
+        if kind == "set_keys_bad":
+            # a key installation that must be refused; the session keeps its keys, salt counter and installation
+            eid, user, a_alg, a_key, p_alg, p_key = s.cfg.raw_args(s.model.engine_id or s.cfg.engine_id)
+            how = act[2]
+            need = {1: 16, 2: 20}.get(s.cfg.auth, 16)
+            if how == "privlen":
+                p_alg, p_key = (s.cfg.priv | (drivers.KT_LOCALIZED << 6)), bytes(range(1, need - 3))
+            elif how == "privempty":
+                p_alg, p_key = (s.cfg.priv | (drivers.KT_PASSWORD << 6)), b""
+            elif how == "authlen":
+                a_alg, a_key = (s.cfg.auth | (drivers.KT_LOCALIZED << 6)), bytes(range(1, need + 5))
+            elif how == "privalg":
+                p_alg = 3
+            out = drivers.call(w.sock.set_keys, user, a_alg, a_key, p_alg, p_key)
+            self.api_calls += 1
+            if out.kind != "exc" or not isinstance(out.exc, ValueError):
+                self.bad("keys", "set_keys with %s was not refused with ValueError: %r" % (how, out.brief()))
+                if out.kind == "ok":
+                    s.installation += 1
             return
         if kind in ("get", "get_many", "getnext", "getbulk", "refresh", "oversize", "get_n", "get_many_kn"):
             if kind == "refresh" and s.cfg.version != "v3":
